@@ -17,6 +17,7 @@ import (
 	"github.com/tochemey/goakt/v4/internal/remoteclient"
 	"github.com/tochemey/goakt/v4/internal/types"
 	"github.com/tochemey/goakt/v4/log"
+	"google.golang.org/protobuf/proto"
 )
 
 // C33 drivers: the REAL relocationWorker.relocate / relocateShare, relocator.Receive,
@@ -459,3 +460,107 @@ func (j *VerifJobRig) Events() []string {
 
 // StoreDeletes returns the number of DeletePeerState calls so far.
 func (j *VerifJobRig) StoreDeletes() int { return j.rig.trace.StoreDelete }
+
+// ---- NodeLeft delivered while the worker is finishing --------------------------------------------
+
+// verifHookStore holds one graceful-shutdown snapshot; DeletePeerState runs a hook BEFORE the
+// snapshot is removed (the store round trip is "in progress").
+type verifHookStore struct {
+	mu       sync.Mutex
+	states   map[string]*internalpb.PeerState
+	onDelete func()
+	deletes  int
+}
+
+func (s *verifHookStore) PersistPeerState(context.Context, *internalpb.PeerState) error { return nil }
+func (s *verifHookStore) GetPeerState(_ context.Context, addr string) (*internalpb.PeerState, bool) {
+	s.mu.Lock()
+	defer s.mu.Unlock()
+	st, ok := s.states[addr]
+	if !ok {
+		return nil, false
+	}
+	// like the shipped stores: a fresh object per call
+	return proto.Clone(st).(*internalpb.PeerState), true
+}
+func (s *verifHookStore) DeletePeerState(_ context.Context, addr string) error {
+	if s.onDelete != nil {
+		hook := s.onDelete
+		s.onDelete = nil
+		hook()
+	}
+	s.mu.Lock()
+	s.deletes++
+	delete(s.states, addr)
+	s.mu.Unlock()
+	return nil
+}
+func (s *verifHookStore) Close() error { return nil }
+
+// VerifNodeLeftScript drives the REAL actorSystem.handleNodeLeftEvent (this node is the leader, the
+// departed node left a snapshot) and the REAL relocationWorker.relocate for one departed address:
+//   1 first NodeLeft, then `dupsBefore` duplicate NodeLefts while the relocation is in flight,
+//   then the worker runs; `dupsInDelete` duplicate NodeLefts are delivered from inside the store's
+//   DeletePeerState, i.e. while the worker is still inside finish().
+// It returns the number of RelocationStarted events (= relocations started for this departure),
+// whether a job is still registered afterwards, and the number of DeletePeerState calls.
+func VerifNodeLeftScript(dupsBefore, dupsInDelete int) (started int, jobHeld bool, deletes int, err error) {
+	system, nerr := NewActorSystem("verifnl", WithLogger(log.DiscardLogger))
+	if nerr != nil {
+		return 0, false, 0, nerr
+	}
+	sys := system.(*actorSystem)
+	env := &VerifEnv{LocalFail: map[string]bool{}}
+	trace := &VerifTrace{}
+	const departed = "10.9.9.9:9500"
+	snapshot := &internalpb.PeerState{
+		Host: verifDepartedHost, PeersPort: verifDepartedPeers, RemotingPort: verifDepartedRemoting,
+		Grains: map[string]*internalpb.Grain{
+			"lazy": {GrainId: &internalpb.GrainId{Kind: "kind", Name: "lazy", Value: "kind/lazy"}},
+		},
+	}
+	store := &verifHookStore{states: map[string]*internalpb.PeerState{departed: snapshot}}
+	sys.cluster = &verifCluster{env: env, trace: trace, sys: sys}
+	sys.clusterStore = store
+	sys.started.Store(true)
+	sys.clusterEnabled.Store(true)
+	sys.relocationEnabled.Store(true)
+	// a relocator that only has to accept the Rebalance order
+	sys.systemGuardian = &PID{actorSystem: system, logger: log.DiscardLogger}
+	sys.relocator = &PID{actorSystem: system, logger: log.DiscardLogger}
+	stream := eventstream.New()
+	sys.eventsStream = stream
+	sub := stream.AddSubscriber()
+	stream.Subscribe(sub, eventsTopic)
+
+	nodeLeft := &cluster.Event{Type: cluster.NodeLeft, Payload: &cluster.NodeLeftEvent{Address: departed, Timestamp: time.Now()}}
+
+	// first notification: the leader registers the job and announces the relocation. The
+	// dispatch to the (unreachable) relocator is replaced by what a reachable relocator does
+	// not undo: the job stays registered until the worker finishes.
+	registered, ok := store.GetPeerState(context.Background(), departed)
+	if !ok || !sys.beginRelocation(departed, registered) {
+		return 0, false, 0, errors.New("first NodeLeft could not register the job")
+	}
+	sys.publishRelocationStarted(departed, registered, false)
+	for i := 0; i < dupsBefore; i++ {
+		sys.handleNodeLeftEvent(nodeLeft)
+	}
+	if dupsInDelete > 0 {
+		store.onDelete = func() {
+			for i := 0; i < dupsInDelete; i++ {
+				sys.handleNodeLeftEvent(nodeLeft)
+			}
+		}
+	}
+	worker := &relocationWorker{remoting: &verifRemoting{env: env, trace: trace}, pid: &PID{actorSystem: system, logger: log.DiscardLogger, eventsStream: stream}, logger: log.DiscardLogger}
+	worker.relocate(newReceiveContext(context.Background(), nil, worker.pid, &internalpb.Rebalance{PeerState: registered}), registered)
+
+	for message := range sub.Iterator() {
+		if _, ok := message.Payload().(*RelocationStarted); ok {
+			started++
+		}
+	}
+	_, jobHeld = sys.relocationJob(departed)
+	return started, jobHeld, store.deletes, nil
+}
